@@ -752,6 +752,7 @@ impl Reader {
       writer_guid,
       writer_sn,
     );
+    verif_yield!("reader:after-cache-insert");
 
     // Add to own track-keeping data structure
     #[cfg(test)]
@@ -1214,6 +1215,7 @@ impl Reader {
   // notifies DataReaders (or any listeners that history cache has changed for
   // this reader) likely use of mio channel
   pub fn notify_cache_change(&mut self) {
+    verif_yield!("reader:notify:before-waker-take");
     // async notify mechanism
     self
       .data_reader_waker
@@ -1222,9 +1224,11 @@ impl Reader {
       .take() // Take to nullify the reference
       .map(|w| w.wake_by_ref()); // If Some, call wake_by_ref
 
+    verif_yield!("reader:notify:before-mio08-send");
     // mio-0.8 notify
     self.poll_event_sender.send();
 
+    verif_yield!("reader:notify:before-mio06-send");
     // mio-0.6 notify
     match self.notification_sender.try_send(()) {
       Ok(()) => (),
